@@ -667,6 +667,12 @@ def judgeCert : M Unit := do
         judge ln "cert_model" (m1 == r1 && m2 == r2)
           s!"{dom}: compare(ph)/compare(cert)/reverse: H79 model [{m1}] real [{r1}]; BHRZ03 model [{m2}] real [{r2}]"
         if (bk.getD 3 "11") != "11" then bad ln "cert_ok" s!"BHRZ03_Certificate::OK() false: {bk.getD 3 ""}"
+        -- which component decided the BHRZ03 comparison (coverage)
+        let level :=
+          if bY.affineDim != bR.affineDim then 0 else if bY.linSpaceDim != bR.linSpaceDim then 1
+          else if bY.numConstraints != bR.numConstraints then 2 else if bY.numPoints != bR.numPoints then 3
+          else if bY.numRaysNullCoord != bR.numRaysNullCoord then 4 else 5
+        IO.println s!"info {ln} level={level} incl={incl}"
         let rep := findK ck "rep"
         if !rep.isEmpty then
           judge ln "cert_value" (rep.all (· == "0"))
